@@ -13,7 +13,8 @@ from .values import SV, Loc, Unsupported, lift, fresh, simp, sort_of, kind_name,
 
 import os as _os
 REPO_ROOT = _os.path.realpath(_os.environ.get('PYVC_REPO', '/repo')) + '/'
-ROOTS = (REPO_ROOT, '/verif/spec/', '/verif/contracts/')
+_HERE = _os.path.dirname(_os.path.dirname(_os.path.abspath(__file__)))
+ROOTS = (REPO_ROOT, _os.path.join(_HERE, "spec") + "/", _os.path.join(_HERE, "contracts") + "/")
 MAX_LEN = 2 ** 62      # typing fact: no Python sequence is longer than sys.maxsize
 
 
@@ -533,8 +534,9 @@ class Opt(Builder):
 class Obj(Builder):
     """by-reference instance of a real class with the given field builders (no __init__ run)"""
 
-    def __init__(self, cls, fields, make=None, extract=None):
+    def __init__(self, cls, fields, make=None, extract=None, shared=False):
         self.cls, self.fields = cls, fields
+        self.shared = shared
         self.make = make          # native constructor from a dict of field values
         self.extract = extract
 
@@ -565,6 +567,8 @@ class Obj(Builder):
 
     def native_copy(self, v):
         import copy
+        if self.shared:
+            return v         # an object the unit only reads (and that cannot be deep-copied, e.g. tuple subclasses with extra state)
         return copy.deepcopy(v)
 
 
